@@ -14,7 +14,7 @@ MANIFEST_ENTRY = {
     "technique": "Coq proof that the LSP relative encoding of the lexer model's highlighted tokens decodes to exactly those lexemes "
                  "in increasing non-overlapping order (all texts), legend table regenerated from lsp_project.rs and proved "
                  "class-consistent; model/server correspondence and direct decoding of real server responses after edit histories",
-    "text": "Theorems for every text: decode_rel(semantic_tokens(tokenize t)) is entry for entry the (line, start, length, class) list "
+    "text": "For every history of messages: a request for the semantic tokens of a file document is answered, under its id, with the tokens of what the history left as that document's contents -- its last didOpen / non-empty didChange since it was last closed, null when closed or never opened -- and of nothing else (C15_tokens_of_current_contents, on the server model that is compared frame by frame with the real server). Theorems for every text: decode_rel(semantic_tokens(tokenize t)) is entry for entry the (line, start, length, class) list "
             "of the highlighted lexemes; the encoder's subtractions never underflow; consecutive lexemes do not overlap and start "
             "positions strictly increase; the response is null iff the lexer rejects some slice; every token kind's legend entry "
             "(table regenerated from lsp_project.rs each run) names a class acceptable for the kind, kinds without a class and "
